@@ -1,4 +1,5 @@
 import GenjaxVerif.Lemmas.GFIGenerate
+import GenjaxVerif.Lemmas.GFIValues
 import GenjaxVerif.Props.GFITest
 /-!
 # C03 — importance weights equal the log-density of the constrained choices
@@ -12,6 +13,13 @@ open GenjaxVerif
 theorem C03_generate_weight (ds : DistSem) (p : Prog) (i : In) (r : Res)
     (h : run ds .gen p i = .ok r) : r.w = cscore i.c r.tr :=
   gen_w ds p i r h
+
+/-- The returned trace agrees with the constraint at every (validly) constrained address present
+    in it: `Agrees` narrows the constraint along the address as `get_submap` does, and demands the
+    constraint's value at every primitive choice it reaches. -/
+theorem C03_trace_agrees_with_constraint (ds : DistSem) (p : Prog) (i : In) (r : Res)
+    (h : run ds .gen p i = .ok r) : Agrees i.c r.tr :=
+  run_agrees ds .gen (Or.inl rfl) p i r h
 
 /-- An empty constraint gives weight 0. -/
 theorem C03_empty_constraint_weight_zero (ds : DistSem) (p : Prog) (i : In) (r : Res)
